@@ -25,8 +25,8 @@ MANIFEST = dict(
         design="5/C19")
 
 CFG = {
-    "quick": dict(mc="MC_Iter.cfg", gen="Gen_Iter.cfg", nsrc=150, nmut=150),
-    "thorough": dict(mc="MC_Iter_t.cfg", gen="Gen_Iter_t.cfg", nsrc=1500, nmut=1500),
+    "quick": dict(mc="MC_Iter.cfg", gen="Gen_Iter.cfg", nsrc=300, nmut=300),
+    "thorough": dict(mc="MC_Iter_t.cfg", gen="Gen_Iter_t.cfg", nsrc=3000, nmut=3000),
 }
 FAULTS = ("Crash", "Hang", "Garbled", "Missing")
 
